@@ -39,7 +39,13 @@ def run(tier):
 
     # --- factors on stock cases -----------------------------------------------------------
     cases = [c for c in QUICK_CASES if os.path.exists(os.path.join("/repo/andes/cases", c))] if quick else stock_cases()
-    obs = run_tasks("vh.pudrv:observe_case", [dict(case=c, sid=c) for c in cases], nproc=NCPU, timeout=600)
+    otasks = [dict(case=c, sid=c) for c in cases]
+    # stock devices are rated on their buses' voltage; generated networks rate branches, loads and shunts on other bases
+    for sd in range(3 if quick else 12):
+        for base in (2, 3):
+            otasks.append(dict(case="generated[seed=%d|base=%d]" % (700 + sd, base), sid="gen%d.%d" % (sd, base), gen=[700 + sd, "int", base, sd]))
+    obs = run_tasks("vh.pudrv:observe_case", otasks, nproc=NCPU, timeout=600)
+    cases = [t["case"] for t in otasks]
     recs = []
     for c, o in zip(cases, obs):
         if o["status"] == "ok":
@@ -86,7 +92,12 @@ def run(tier):
     pick = seqs if not quick else ([q for q in seqs if len(q) <= 2] + rnd.sample([q for q in seqs if len(q) == 3], 50))
     for k, q in enumerate(pick):
         for pt in (points if not quick else [points[k % 3]]):
-            scs.append(dict(sid="seq[%s|%s]" % (pt, ">".join(q)), point=pt, ops=q, formats=["json"] if k % 4 else ["json", "xlsx"]))
+            # what is exported afterwards, in which order, and whether the case had already been exported before the
+            # alterations (an exporter must not serve a table built earlier)
+            fm = [["json"], ["xlsx"], ["json", "xlsx"], ["xlsx", "json"]][k % 4]
+            first = [None, ["xlsx"], None, ["json"], ["json", "xlsx"], None][k % 6]
+            scs.append(dict(sid="seq[%s|%s|export %s%s]" % (pt, ">".join(q), ",".join(fm), "|exported before: " + ",".join(first) if first else ""),
+                            point=pt, ops=q, formats=fm, export_first=first))
     # a parameter that is the time constant of two states (REGCA1.Tg), and exciter / governor time constants
     tg = {"REGCA1.Tg": ["REGCA1", "Tg", 1, "RenGen"], "GENROU.M": ["GENROU", "M", "GENROU_2", "SynGen"]}
     for k, q in enumerate([["alter_v"], ["alter_v", "alter_vin"], ["group_alter", "alter_v"], ["set", "alter_v"], ["alter_vin", "set"]]):
